@@ -30,11 +30,25 @@ LEVEL_TEXT = ('Mixed: deductive proof (all inputs) of the row-selection arithmet
 LEVEL_NOTE = 'Trusted: pyvc, z3/cvc5, LIBSPEC-pd, the plain-Python oracle of the bounded stand-in.'
 TECHNIQUE = 'contract-based deductive verification (AST -> VCs -> z3/cvc5) + bounded stand-ins on the real code'
 DESIGN_REF = 'DESIGN.md section 3 / C13'
-REPLAYS = {}
+_BOUNDED_REPLAY = """
+# re-run the recorded witnesses (table + operation sequence) of the bounded stand-in on the real code
+import sys
+sys.path.insert(0, '/verif/bounded')
+import c13_native
+bad = []
+for f in (m or {}).get('failures') or []:
+    bad += c13_native.run_case(f['table'], f['ops'], f.get('seed', 0))
+violated = bool(bad)
+detail = str(bad[:2])
+"""
 
 # clause of the bounded stand-in -> (obligation name, what it decides)
 CLAUSES = {
-    'remove.rows-and-count': 'Database.remove: rows kept = rows with zero indicator (order, labels, values), count reported, temporary column gone',
+    'remove.rows-and-count': 'Database.remove on a table with pairwise distinct index labels: rows kept = rows with zero indicator '
+                             '(order, labels, values), count reported, temporary column gone',
+    'remove.rows-and-count.duplicate-labels': 'the same on a table whose index carries duplicate labels (after extract_rows with repeated '
+                                              'positions, bootstrap samples, concatenated files)',
+    'remove.individual-map-current': 'Database.remove on panel data: individualMap describes the table that is left',
     'add_column.values': 'Database.add_column: new column holds the formula value of each row, everything else unchanged',
     'define_variable.values': 'Database.define_variable: same as add_column, returns the variable',
     'scale_column.one-column': 'Database.scale_column: exactly one column multiplied',
@@ -42,11 +56,14 @@ CLAUSES = {
     'extract_rows.positional': 'Database.extract_rows: rows at the requested positions (repeats allowed), range errors, source untouched',
     'count.value': 'Database.count: number of rows holding the value',
     'sample_with_replacement.existing-rows': 'Database.sample_with_replacement: only rows of the table, requested size',
-    'sample_individual_map.existing-individuals': 'sample_individual_map_with_replacement / individualMap: only individuals (ranges) of the CURRENT table',
+    'sample_individual_map.existing-individuals': 'sample_individual_map_with_replacement: only individuals (ranges) of the current table, requested size',
     'split.folds': 'Database.split: validation parts disjoint and covering, estimation = complement, groups never separated',
     'flatten.values': 'flatten_database / generate_flat_panel_dataframe: one line per individual, values of the k-th observation',
     'harness': 'harness self-check (initial table equals its model; no unexpected exception)',
 }
+
+
+REPLAYS = {f'C13:bounded:{c}': _BOUNDED_REPLAY for c in CLAUSES}
 
 
 def _run_native(tier, seed, timeout):
